@@ -190,7 +190,7 @@ def explore_ill(T, en, Dumper, first, depth):
 def plan(tier, seed):
     q = tier == 'quick'
     n = len(U.STR_SIGMA)
-    jobs = [('thr', k) for k in range(12)]
+    jobs = [('thr', k) for k in range(12)] + [('esckey', k, 8) for k in range(8)]
     jobs += [('txt1', a, 1 if q else 2) for a in range(-1, n)]
     jobs += [('txt2', a, q) for a in range(n)]
     if q:
@@ -390,6 +390,16 @@ def run_job(job, T):
                 for o in OPTS_RED:
                     roundtrip(T, 'thresholds', E.stream(E.doc(E.in_context(c, s2))), o)
         T.sample('thresholds', {'len': len(s)})
+    elif kind == 'esckey':
+        # keys that are short in characters but long once escaped (the scanner accepts a simple key within 1024 positions)
+        s = None
+        for i, s in enumerate(U.escaped_keys()):
+            if i % job[2] != job[1]:
+                continue
+            for ds in scalar_streams(s, STYLES, IMPL4[:2], ['bmap-key', 'fmap-key', 'bmap-key2', 'seq-of-map']):
+                for o in OPTS_RED[:3] + [{'allow_unicode': True}]:
+                    roundtrip(T, 'thresholds', ds, o)
+        T.sample('thresholds', {'len': len(s), 'written': len(s.encode('unicode_escape'))})
     elif kind == 'ill':
         _, en, first, depth = job
         explore_ill(T, en, dict(EMITTERS)[en], first, depth)
